@@ -29,7 +29,7 @@ import (
 // (directive parsed from Casketfile text, a byte-level responder on the loopback interface that
 // answers with the Status value named in the request's query string).
 // field: hex of the header value as net/textproto delivers it.
-// out = req=<err | code,hex(resp.Status)>;serve=<return of ServeHTTP>,<code given to WriteHeader | ->
+// out = req=<err | code>;serve=<return of ServeHTTP>,<code given to WriteHeader | ->
 
 var c19StatusLn net.Listener
 
@@ -198,7 +198,7 @@ func init() {
 					if resp.Header.Get("Status") != val {
 						return "bad-case:textproto delivered " + hx.HS(resp.Header.Get("Status"))
 					}
-					reqOut = strconv.Itoa(resp.StatusCode) + "," + hx.HS(resp.Status)
+					reqOut = strconv.Itoa(resp.StatusCode) // resp.Status is not compared: ServeHTTP never uses it
 					if resp.Body != nil {
 						io.Copy(io.Discard, resp.Body)
 					}
